@@ -15,7 +15,8 @@ import (
 //     LINE printed by the command against the line the fault was injected on.
 var yamlFaults = []string{"  @bad: 1", "k: 1: 2", "k: [1, 2", "k: {a: 1"}
 
-// faults go-yaml reports without any index (plain errors): the command then prints line 1 and an empty message
+// faults go-yaml reports without any index (plain errors): since faf5fb2 the command prints the library's
+// message without a position (before, line 1 and an empty message: key yaml-error-without-index)
 var yamlFaultsNoIndex = []string{"k: *unknown", "k: !!int abc"}
 
 func yamlDoc(r *common.Rand, nLines int) []string {
@@ -61,14 +62,18 @@ func (y *yamlRun) run(ls []string, eol string, at int, fault string, seek, noInd
 	} else {
 		idx, errText, ok = cli.VerifC17YAMLError(&scriptReader{data: []byte(text), sizes: []int{4096}}, "f.yaml")
 	}
-	if !ok || idx < 0 {
+	if !ok || idx < -1 {
 		y.orc.Distribution["accepted-or-other-error"]++
 		return
 	}
 	rep := parseReport(errText, "yaml", "f.yaml")
 	assertWidth(rep.excerpt)
 	y.lines = append(y.lines, fmt.Sprintf("x%x %d", text, idx))
-	y.impl = append(y.impl, rep.wire())
+	if msg, plain := plainYAMLMessage(errText, "f.yaml"); plain && msg != "" && !rep.ok {
+		y.impl = append(y.impl, "noindex")
+	} else {
+		y.impl = append(y.impl, rep.wire())
+	}
 	y.st.Distribution[fmt.Sprintf("fault=%q", fault)]++
 
 	// oracle through the command
@@ -83,6 +88,11 @@ func (y *yamlRun) run(ls []string, eol string, at int, fault string, seek, noInd
 	y.orc.Distribution[fmt.Sprintf("%s:%s:lines<%d", tr.name, eolName(eol), sizeClass(len(ls)))]++
 	want := at + 1
 	if rep2.ok && rep2.line == want && strings.Contains(fault, rep2.excerpt) {
+		return
+	}
+	if msg, plain := plainYAMLMessage(stderr, name); noIndex && plain && !rep2.ok && strings.TrimSpace(msg) != "" {
+		// go-yaml gave no index: the command prints the library's message and claims no position
+		y.orc.Distribution["index-free message form"]++
 		return
 	}
 	key := fmt.Sprintf("lineinfo:yaml:%q:%s", fault, tr.name)
@@ -108,6 +118,16 @@ func (y *yamlRun) run(ls []string, eol string, at int, fault string, seek, noInd
 	ctx.Violate(key, fmt.Sprintf("--yaml-input: fault %q on line %d of %d reported as %s", fault, want, len(ls), clip(strings.ReplaceAll(stderr, "\n", "\\n"), 160)), rp)
 }
 
+// plainYAMLMessage recognises `[gojq: ]invalid yaml: <name>: <message>` (one line, no caret).
+func plainYAMLMessage(text, name string) (msg string, ok bool) {
+	text = strings.TrimSuffix(strings.TrimPrefix(text, "gojq: "), "\n")
+	pre := "invalid yaml: " + name + ": "
+	if !strings.HasPrefix(text, pre) || strings.Contains(text, "^") {
+		return "", false
+	}
+	return text[len(pre):], true
+}
+
 func sizeClass(n int) int {
 	for _, c := range []int{10, 100, 1000} {
 		if n < c {
@@ -122,7 +142,7 @@ func yamlChecks() {
 	y.st = ctx.NewStream("yaml", "Gojq.Cli.yamlReport (getLineByOffset(contents, index+1))",
 		"yamlParseError.Error of the real yamlInputIter for YAML texts (3–3000 lines, LF/CRLF, seekable and not) with one faulty line; the model is given the index go-yaml reported; distinct = distinct implementation answers")
 	y.orc = ctx.NewOracle("yaml-line",
-		"`gojq --yaml-input empty` (file and non-seekable stdin, LF/CRLF, 3–3000 lines, some multi-document, multi-byte characters in values) with one top-level line replaced by a fault whose place go-yaml reports on that line ("+strings.Join(quoteAll(yamlFaults), ", ")+"): the printed line number must be the faulty line and the excerpt part of it; faults go-yaml reports without an index ("+strings.Join(quoteAll(yamlFaultsNoIndex), ", ")+") are judged the same way; distinct = distinct (fault, transport, terminator, line/100)")
+		"`gojq --yaml-input empty` (file and non-seekable stdin, LF/CRLF, 3–3000 lines, some multi-document, multi-byte characters in values) with one top-level line replaced by a fault whose place go-yaml reports on that line ("+strings.Join(quoteAll(yamlFaults), ", ")+"): the printed line number must be the faulty line and the excerpt part of it; faults go-yaml reports without an index ("+strings.Join(quoteAll(yamlFaultsNoIndex), ", ")+") must either be located the same way or be printed as `invalid yaml: <name>: <non-empty message>` without any position; distinct = distinct (fault, transport, terminator, line/100)")
 	r := ctx.R.Fork(8)
 	// fixed cases first (the replays quoted for the known defect classes)
 	y.run([]string{"a: \"漢漢漢漢\"", "b: 1", "c: 1: 2", "d: 3"}, "\n", 2, "c: 1: 2", false, false)
